@@ -7,10 +7,10 @@ package main
 //      one matcher instance applied to k cells in sequence (its buffer is reused); upper = ToUpper(&buf, cell) with one buffer
 
 import (
-	"strconv"
 	"fmt"
 	"regexp"
 	"sort"
+	"strconv"
 	"strings"
 	"unicode"
 
